@@ -46,9 +46,10 @@ Put(f, k, v) == [x \in (DOMAIN f) \cup {k} |-> IF x = k THEN v ELSE f[x]]
 Empty == [x \in {} |-> 0]
 
 NoCur == [sid |-> -1, tok |-> 0]
-NoRes == [ok |-> FALSE, sid |-> -1, len |-> 0, tok |-> 0, rem |-> 0, fin |-> FALSE, now |-> FALSE]
+\* outcome of the last Once (now = it was the last call); room = the packet had at least MinRoom left
+NoRes == [ok |-> FALSE, sid |-> -1, room |-> FALSE, now |-> FALSE]
 \* what happened since stream s started to wait: bytes / visits given to every other stream, frames and packets
-ZeroWait == [b |-> Empty, r |-> Empty, last |-> -1, n |-> 0, p |-> 0, lastpk |-> -1, ref |-> FALSE]
+ZeroWait == [b |-> Empty, r |-> Empty, last |-> -1, n |-> 0, p |-> 0, inpk |-> FALSE, ref |-> FALSE]
 
 Init0(credit) ==
     [created |-> {}, removed |-> {},
@@ -56,7 +57,7 @@ Init0(credit) ==
      pend |-> Empty,    \* bytes written and not yet sent
      room |-> Empty,    \* stream window minus bytes sent
      credit |-> credit, \* connection window minus fresh bytes sent
-     cur |-> NoCur, pkid |-> 0, wait |-> Empty, res |-> NoRes,
+     cur |-> NoCur, wait |-> Empty, res |-> NoRes,
      ok |-> TRUE, why |-> "", soft |-> ""]
 
 -----------------------------------------------------------------------------
@@ -119,8 +120,8 @@ Account(m0, m1, sid, len, dev) ==
                        r |-> Put(w.r, sid, Sat(Get(w.r, sid, 0) + (IF w.last = sid THEN 0 ELSE 1), 2)),
                        last |-> sid,
                        n |-> Sat(w.n + 1, KWait(n) + 1),
-                       p |-> Sat(w.p + (IF w.lastpk = m1.pkid THEN 0 ELSE 1), KWait(n) + 1),
-                       lastpk |-> m1.pkid,
+                       p |-> Sat(w.p + (IF w.inpk THEN 0 ELSE 1), KWait(n) + 1),
+                       inpk |-> TRUE,
                        ref |-> w.ref \/ dev]]
         rep == {s \in DOMAIN w1 : Repeats(w1[s])}
         stv == {s \in DOMAIN w1 : Starved(m1, w1[s])}
@@ -143,7 +144,7 @@ Once(mm, rem, ok, sid, len, fin) ==
     IF ~ok THEN
         \* WorkConserving: "nothing to send" only if the packet is full or no stream is sendable
         IF rem >= MinRoom /\ S # {} THEN Fail(m, "WorkConserving")
-        ELSE [m EXCEPT !.res = [NoRes EXCEPT !.rem = rem, !.now = TRUE]]
+        ELSE [m EXCEPT !.res = [NoRes EXCEPT !.room = (rem >= MinRoom), !.now = TRUE]]
     ELSE IF rem < MinRoom THEN Fail(m, "NoRoom")
     ELSE IF sid \notin S THEN Fail(m, "ServedNotSendable")
     ELSE IF sid # Pick(m, FALSE) /\ sid # Pick(m, TRUE) THEN Fail(m, "OrderMismatch")
@@ -158,14 +159,15 @@ Once(mm, rem, ok, sid, len, fin) ==
         ELSE IF ~data /\ len # 0 THEN Fail(m, "LenOutOfRange")
         ELSE IF fin # (m.st[sid] = "fin" /\ len = m.pend[sid]) THEN Fail(m, "FinMismatch")
         ELSE
-            LET m1 == [m EXCEPT !.pend[sid] = @ - len, !.room[sid] = @ - len, !.credit = @ - len,
+            \* (a stream that emitted its FIN sends nothing more: its window is of no interest any longer)
+            LET m1 == [m EXCEPT !.pend[sid] = @ - len, !.room[sid] = IF fin THEN 0 ELSE @ - len, !.credit = @ - len,
                                 !.st[sid] = IF fin THEN "done" ELSE @,
                                 !.cur = [sid |-> sid, tok |-> tok - len],
-                                !.res = [ok |-> TRUE, sid |-> sid, len |-> len, tok |-> tok, rem |-> rem, fin |-> fin, now |-> TRUE]]
+                                !.res = [ok |-> TRUE, sid |-> sid, room |-> TRUE, now |-> TRUE]]
             IN Account(m, m1, sid, len, dev)
 
 \* a new packet is being assembled
-NewPack(m) == [Clear(m) EXCEPT !.pkid = @ + 1]
+NewPack(mm) == LET m == Clear(mm) IN [m EXCEPT !.wait = [s \in DOMAIN m.wait |-> [m.wait[s] EXCEPT !.inpk = FALSE]]]
 
 -----------------------------------------------------------------------------
 (* the environment *)
@@ -182,7 +184,8 @@ Shutdown(mm, s) ==
 \* cancelled by the application or stopped by the peer: RESET_STREAM queued, nothing is sent any more
 Cancel(mm, s) ==
     LET m == Clear(mm) IN
-    IF Live(m, s) /\ m.st[s] \in {"send", "fin", "done"} THEN Resettle([m EXCEPT !.st[s] = "reset"]) ELSE m
+    IF Live(m, s) /\ m.st[s] \in {"send", "fin", "done"}
+    THEN Resettle([m EXCEPT !.st[s] = "reset", !.pend[s] = 0, !.room[s] = 0]) ELSE m
 \* every frame of s in flight is acknowledged: a finished stream leaves `outgoings`
 AckAll(mm, s) ==
     LET m == Clear(mm) IN
@@ -193,7 +196,7 @@ ResetAcked(mm, s) ==
 \* MAX_STREAM_DATA: the window only grows
 WindowUpdate(mm, s, newroom) ==
     LET m == Clear(mm) IN
-    IF s \in m.created THEN Resettle([m EXCEPT !.room[s] = Max(@, newroom)]) ELSE m
+    IF Live(m, s) /\ m.st[s] \in {"send", "fin"} THEN Resettle([m EXCEPT !.room[s] = Max(@, newroom)]) ELSE m
 \* MAX_DATA
 MaxData(mm, newcredit) ==
     LET m == Clear(mm) IN Resettle([m EXCEPT !.credit = Max(@, newcredit)])
